@@ -654,7 +654,9 @@ impl Translator {
                         SolvedType::Float => {
                             self.emit(st, Instr::AddFloat(Reg::Top, Reg::Top, Reg::Top))
                         }
-                        _ => unreachable!(),
+                        _ => {
+                            helper(mono, "prelude.Num.add");
+                        }
                     },
                     BinaryOperator::Subtract => match arg1_ty {
                         SolvedType::Int => {
@@ -663,7 +665,9 @@ impl Translator {
                         SolvedType::Float => {
                             self.emit(st, Instr::SubFloat(Reg::Top, Reg::Top, Reg::Top))
                         }
-                        _ => unreachable!(),
+                        _ => {
+                            helper(mono, "prelude.Num.subtract");
+                        }
                     },
                     BinaryOperator::Multiply => match arg1_ty {
                         SolvedType::Int => {
@@ -672,7 +676,9 @@ impl Translator {
                         SolvedType::Float => {
                             self.emit(st, Instr::MulFloat(Reg::Top, Reg::Top, Reg::Top))
                         }
-                        _ => unreachable!(),
+                        _ => {
+                            helper(mono, "prelude.Num.multiply");
+                        }
                     },
                     BinaryOperator::Divide => match arg1_ty {
                         SolvedType::Int => {
@@ -681,7 +687,9 @@ impl Translator {
                         SolvedType::Float => {
                             self.emit(st, Instr::DivFloat(Reg::Top, Reg::Top, Reg::Top))
                         }
-                        _ => unreachable!(),
+                        _ => {
+                            helper(mono, "prelude.Num.divide");
+                        }
                     },
                     BinaryOperator::GreaterThan => match arg1_ty {
                         SolvedType::Int => {
@@ -773,7 +781,9 @@ impl Translator {
                         SolvedType::Float => {
                             self.emit(st, Instr::PowFloat(Reg::Top, Reg::Top, Reg::Top))
                         }
-                        _ => unreachable!(),
+                        _ => {
+                            helper(mono, "prelude.Num.power");
+                        }
                     },
                     BinaryOperator::Format => {
                         let func_def = self.statics.get_free_function_decl("prelude.format_append");
@@ -2259,7 +2269,22 @@ impl Translator {
                     | AssignOperator::StarEq
                     | AssignOperator::SlashEq
                     | AssignOperator::ModEq => {
-                        let perform_op = |st| match assign_op {
+                        // `x op= v` on a user type goes through its Num implementation
+                        let num_method = |st: &mut TranslatorState, method_name: &str| {
+                            let (iface_def, method) = self.statics.get_iface_method_decl(method_name);
+                            let func_ty = Type::Function(
+                                vec![rvalue_ty.clone(), rvalue_ty.clone()],
+                                rvalue_ty.clone().into(),
+                            );
+                            self.translate_iface_method_call_helper(
+                                st,
+                                mono,
+                                &iface_def,
+                                method as u16,
+                                &func_ty,
+                            );
+                        };
+                        let perform_op = |st: &mut TranslatorState| match assign_op {
                             AssignOperator::PlusEq => {
                                 match rvalue_ty {
                                     SolvedType::Int => {
@@ -2271,7 +2296,7 @@ impl Translator {
                                             Instr::AddFloat(Reg::Top, Reg::Top, Reg::Top),
                                         );
                                     }
-                                    _ => unreachable!(),
+                                    _ => num_method(st, "prelude.Num.add"),
                                 };
                             }
                             AssignOperator::MinusEq => {
@@ -2285,7 +2310,7 @@ impl Translator {
                                             Instr::SubFloat(Reg::Top, Reg::Top, Reg::Top),
                                         );
                                     }
-                                    _ => unreachable!(),
+                                    _ => num_method(st, "prelude.Num.subtract"),
                                 };
                             }
                             AssignOperator::StarEq => {
@@ -2299,7 +2324,7 @@ impl Translator {
                                             Instr::MulFloat(Reg::Top, Reg::Top, Reg::Top),
                                         );
                                     }
-                                    _ => unreachable!(),
+                                    _ => num_method(st, "prelude.Num.multiply"),
                                 };
                             }
                             AssignOperator::SlashEq => {
@@ -2313,7 +2338,7 @@ impl Translator {
                                             Instr::DivFloat(Reg::Top, Reg::Top, Reg::Top),
                                         );
                                     }
-                                    _ => unreachable!(),
+                                    _ => num_method(st, "prelude.Num.divide"),
                                 };
                             }
                             AssignOperator::ModEq => {
